@@ -40,6 +40,11 @@ pub fn cells(tier: Tier) -> Vec<CellPlan> {
         v.push(plan(c, if q { 0 } else { 1 }, 1.0));
     }
     for vis in [Vis::Blacklist, Vis::Whitelist] {
+        let mut c = cells::vis_neighbour("C08", vis);
+        c.oracles = Oracles { c08: true, c01: true, c03: true, ..Default::default() };
+        v.push(plan(c, 1, 1.0));
+    }
+    for vis in [Vis::Blacklist, Vis::Whitelist] {
         let mut c = cells::vis_empty("C08", vis);
         c.oracles = Oracles { c08: true, c01: true, c03: true, ..Default::default() };
         c.rounds = if q { 3 } else { 4 };
